@@ -190,10 +190,19 @@ Accept(e) ==
   /\ \E o \in Explained(e) : CronOnly(e, o.mem) /\ mem' = o.mem /\ ro' = o.ro
   /\ l' = l + 1 /\ UNCHANGED impl
 
+\* The recorded defect D_CRON_STALE is about rules that disappear WITHOUT an explicit removal of their id
+\* (cascade, expiry, Clear, overwrite).  An explicit, acknowledged RemRule / RemFact of an id that held a
+\* scheduled rule must withdraw the registration; a registration left behind by that is not the recorded defect.
+StaleOk(e) ==
+  (e.op \in {"RemRule", "RemFact"} /\ e.res.c = "ok" /\ impl.via # "" /\ impl.cronkind # "internal"
+     /\ e.id \in SchedIn(mem[e.loc], Vis(mem[e.loc], e.now)))
+  => e.id \notin Rng(e.cron[e.loc])
+
 \* explained, except that a registration has outlived its rule
 AcceptStale(e) ==
   /\ ~e.fault
   /\ ~IsSysLevel(e)
+  /\ StaleOk(e)
   /\ Explained(e) # {} /\ \A o \in Explained(e) : ~CronOnly(e, o.mem)
   /\ \E o \in Explained(e) : /\ mem' = o.mem /\ ro' = o.ro
                                /\ TLCSet(3, TLCGet(3) \cup {<<l, "D_CRON_STALE">>})
@@ -224,7 +233,9 @@ AcceptDev(e) ==
 \* a line nothing explains: report it and go on with the next trace
 Reject(e) ==
   /\ IF e.fault THEN e.res.c = "ok"
-     ELSE IF IsSysLevel(e) THEN SysOutcomes(e) = {} ELSE Explained(e) = {} /\ ExplainedDev(e) = {}
+     ELSE IF IsSysLevel(e) THEN SysOutcomes(e) = {}
+     ELSE \/ Explained(e) = {} /\ ExplainedDev(e) = {}
+          \/ Explained(e) # {} /\ (\A o \in Explained(e) : ~CronOnly(e, o.mem)) /\ ~StaleOk(e)
   /\ PrintT(<<"REJECT", l, IF IsSysLevel(e) THEN <<"system level", impl>> ELSE Expected(e)>>)
   /\ TLCSet(2, TLCGet(2) \cup {l})
   /\ mem' = <<>> /\ ro' = <<>> /\ impl' = NoImpl
